@@ -409,7 +409,7 @@ def _convert_to_test_module(enabled_examples):
     for example in enabled_examples:
 
         # Create a unit-testable function for this example
-        func_name = 'test_' + example.modname.replace('.', '_') + '_' + example.callname.replace('.', '_')
+        func_name = 'test_' + example.modname.replace('.', '_') + '_' + example.callname.replace('.', '_') + '_' + str(example.num)
         body_lines = []
 
         docstr_lines = [
